@@ -5,7 +5,7 @@ TIE = "correspondence check: Go harness (bin/vh, built -tags verif from /repo's 
 
 PROPS = {
     "C01": dict(
-        rule="round 2: enclen - the real serializer on a bulk string of every length 0..4200 (thorough 0..70000) and windows of +-3 around every 10^k, 2*10^k, 5*10^k, 2^k>=4096, k*1000 (up to 2^20 / 2^24), alone and as an array element, length-prefix law checked and digests of all serializations compared with the model's enc; value trees: all trees with <=3 nodes over payload alphabet {a,CR,LF,$} (payload length <=1 quick / <=2 thorough) "
+        rule="round 2: enclen - the real serializer on a bulk string of every length 0..4200 (thorough 0..20000) and windows of +-3 around every 10^k, 2*10^k, 5*10^k, 2^k>=4096, k*1000 (up to 2^20 / 2^24), alone and as an array element, length-prefix law checked and digests of all serializations compared with the model's enc; value trees: all trees with <=3 nodes over payload alphabet {a,CR,LF,$} (payload length <=1 quick / <=2 thorough) "
              "plus PRNG-generated trees (depth<=6, arity<=40, payload classes: empty, all 256 bytes, CR/LF/NUL, forged frames, type bytes, digits, 64KiB) "
              "built through the public constructors, wide arrays (255..4097 elements, 65536 thorough) and large bulk payloads (511 B..64 KiB, 1 MiB thorough) also nested, plus constructor cases on boundary and random ints/floats; "
              "non-trivial = in the property's domain (no CR/LF in line payloads) with >=1 payload byte or >=2 nodes; distinct = distinct case line",
